@@ -70,11 +70,15 @@ def run(ctx):
               "AlgSet": '{"row","col"}'}
     cases = eng.generate(ctx, consts, "degeneracy patterns x memory settings")
     jobs = []
-    for case in cases:
+    for idx, case in enumerate(cases):
         for unique in (False, True):
             jobs.append({"case": case, "variant": {"unique": unique}, "seed": ctx.seed})
+        # "diagonal or not": the same behaviours with the coupling operator written in another basis
+        jobs.append({"case": case, "variant": {"unique": True, "rot": ("haar", "real", "fourier")[idx % 3]}, "seed": ctx.seed})
         if case["alg"] == "row" and len(case["sh"]) == 2 and case["sh"][0] == case["sh"][1]:
             jobs.append({"case": case, "variant": {"unique": True, "method": "mf"}, "seed": ctx.seed})
+            if idx % 2 == 0:
+                jobs.append({"case": case, "variant": {"unique": True, "method": "mf", "rot": "haar"}, "seed": ctx.seed})
     results = core.pmap(eng.run_variant, jobs, chunksize=8)
     for job, res_ in zip(jobs, results):
         cid = eng.case_id(job["case"], job["variant"])
@@ -85,6 +89,22 @@ def run(ctx):
             key = "C06:%s:unique=%s:%s" % (job["variant"].get("method", job["case"]["alg"]),
                                           job["variant"]["unique"], mm["what"])
             ctx.violation(key, "case %s: %s" % (cid, mm), {"case": job["case"], "variant": job["variant"]})
+    # two systems with different coupling operators in one MeanFieldTempo (degeneracy data must not leak
+    # from one bath to another)
+    rows = [c for c in cases if c["alg"] == "row"]
+    pairs = []
+    for i, ca in enumerate(rows):
+        cb = rows[(i * 7 + 3) % len(rows)]
+        if (ca["N"], ca["K"], ca["A"]) == (cb["N"], cb["K"], cb["A"]) and ca["o"] != cb["o"]:
+            pairs.append({"cases": [ca, cb], "variant": {"unique": True, "rot": bool(i % 2)}, "seed": ctx.seed})
+    if quick:
+        pairs = pairs[::3]
+    for job, res_ in zip(pairs, core.pmap(eng.run_mf_pair, pairs, chunksize=4)):
+        cid = {"mf_pair": [job["cases"][0]["o"], job["cases"][1]["o"]], "K": job["cases"][0]["K"], "A": job["cases"][0]["A"],
+               "variant": job["variant"]}
+        ctx.case(cid, nontrivial=True)
+        for mm in res_["mismatch"]:
+            ctx.violation("C06:mf-two-systems:unique=True:%s" % mm["what"], "%s: %s" % (cid, mm), {"mf_pair": job})
     ctx.rule = ("eigenvalue tuples o in (-1..2)^d enumerated by TLC (Degeneracy.tla); for each: real Bath maps vs spec "
                 "partitions; Influence.tla behaviours (N=3, dkmax in {1,2,None}, add_correlation_time in {None,dt}, "
                 "shifted/unshifted clock) replayed with unique False and True via Tempo, PtTempo+compute_dynamics, "
@@ -96,6 +116,11 @@ def run(ctx):
 def replay(ctx, rep):
     core._init_worker()
     c = rep["case"]
+    if "mf_pair" in c:
+        ctx.case({"replay": True})
+        for mm in eng.run_mf_pair(c["mf_pair"])["mismatch"]:
+            ctx.violation("C06:replay:" + mm["what"], str(mm), c)
+        return
     if "variant" in c:
         res = eng.run_variant({"case": c["case"], "variant": c["variant"], "seed": rep.get("seed", 0)})
         ctx.case(eng.case_id(c["case"], c["variant"]))
